@@ -8,7 +8,8 @@ RULE = ("all mode strings of length <= M over {x, class, a, b, index, ctx.tca, c
         "x return_ctx x wrapper stacks (root, identity wrappers, fused-operation wrappers with groups of 2 and 3 members, two "
         "disjoint groups, nested fused wrappers, TorchWrapper, shipped KDMixWrapper / XTransformWrapper / SemsegTransformWrapper) "
         "x dataset sizes x every int index in [-n, n); slices / index lists / iter / len against list semantics; all access "
-        "sequences of length <= 3 on one object (history independence); distinct = distinct (stack, mode, return_ctx, n, result) "
+        "sequences of length <= 3 on one object (history independence), and accesses interleaved with a sibling stack of the same kind "
+        "over other data; distinct = distinct (stack, mode, return_ctx, n, result) "
         "observations")
 
 ITEMS = ("x", "class", "a", "b")
@@ -58,6 +59,12 @@ def lib():
         def getitem_b(self, idx, ctx=None):
             return self._load("b", idx, ctx)
 
+    class RootRev(Root):
+        """a sibling dataset with other content at every position (sample idx holds what Root has at n-1-idx)"""
+
+        def _load(self, item, idx, ctx):
+            return "sibling:" + super()._load(item, self.n - 1 - idx, ctx)
+
     class IdW(KDWrapper):
         pass
 
@@ -100,15 +107,22 @@ def lib():
             assert 0 <= i < self.n
             return (f"x{i}", f"class{i}")
 
+    class PlainTorchRev(PlainTorch):
+        def __getitem__(self, i):
+            assert 0 <= i < self.n
+            return (f"sibling:x{self.n - 1 - i}", f"sibling:class{self.n - 1 - i}")
+
+    _LIB.update(RootRev=RootRev, PlainTorchRev=PlainTorchRev)
     _LIB.update(np=np, torch=torch, Root=Root, IdW=IdW, make_fused=make_fused, ModeWrapper=ModeWrapper,
                 TorchWrapper=TorchWrapper, PlainTorch=PlainTorch, KDDataset=KDDataset)
     return _LIB
 
 
 # stack name -> (builder(n) -> dataset, groups list, available items)
-def stack_table():
+def stack_table(sibling=False):
     L = lib()
-    Root, IdW, mf = L["Root"], L["IdW"], L["make_fused"]
+    Root, IdW, mf = L["RootRev" if sibling else "Root"], L["IdW"], L["make_fused"]
+    PlainTorch = L["PlainTorchRev" if sibling else "PlainTorch"]
     F_xc = mf([("x", "class")])
     F_ab = mf([("a", "b")])
     F_ba = mf([("b", "a")])
@@ -125,7 +139,7 @@ def stack_table():
         "F[xaclass]>root": (lambda n: F_xac(Root(n)), [("x", "a", "class")], ITEMS),
         "F[xclass,ab]>root": (lambda n: F_two(Root(n)), [("x", "class"), ("a", "b")], ITEMS),
         "F[ab]>F[xclass]>root": (lambda n: F_outer_ab(F_xc(Root(n))), [("x", "class"), ("a", "b")], ITEMS),
-        "torch[x class]": (lambda n: L["TorchWrapper"](L["PlainTorch"](n), mode="x class"), [], ("x", "class")),
+        "torch[x class]": (lambda n: L["TorchWrapper"](PlainTorch(n), mode="x class"), [], ("x", "class")),
     }
 
 
@@ -315,6 +329,25 @@ def check_stack_mode(p, stack, builder, groups, seq, return_ctx, n, forms, histo
                         one(idx, "history")
                 finally:
                     mw = mw_saved
+        # a second, independent stack of the same kind over OTHER data is used in between (train / test splits read in
+        # lock-step): nothing of it may show up in this stack's samples
+        sib_builder = stack_table(sibling=True)[stack][0]
+        for j in range(n):
+            for i in range(n):
+                for first in (False, True):
+                    mw2 = L["ModeWrapper"](builder(n), mode=mode, return_ctx=return_ctx)
+                    sib = L["ModeWrapper"](sib_builder(n), mode=mode, return_ctx=return_ctx)
+                    mw_saved, mw = mw, mw2
+                    try:
+                        if first:
+                            one(i, "sibling_history")
+                        try:
+                            sib[j]
+                        except Exception:
+                            pass
+                        one(i, "sibling_history")
+                    finally:
+                        mw = mw_saved
 
 
 def shipped_checks(p, tier):
